@@ -28,7 +28,8 @@ var (
 	c03SchSeps  = []string{"://", "://", "://", "://", "://", ":/", ":", "//", ":///", "://:"}
 	c03Subs     = []string{"", "", "", "x.", "www.", "a.b.", "A.", "WWW.", "a-b_c.1.", "x", "not", ".", "..", "x/.", "a b.", "x:y.", "x%.", "x.y", "-.", "_."}
 	c03Junk     = []string{"", "", "", "x", "/", "http://", "a/b?c=", " ", "|", "^", "*", "zz.", "%20", "\\"}
-	c03Shorts   = []string{"a", "ab", "abc", "^", "^^", "*^", "^*", "a^", "^a", "a*", "*a", "a|", "|a", "||a", "a||", "|||", "||^", "|^", "^|", "||*", "|*", "*|", "|a|", "||a|", "a|b", ".", "?", "a.b", "\\", "\\|", "|\\", "/*", "a/*", "//*", "||/*", "|/*", "*/*", "^/*", " ", "a ", "%", "-_", "Ab", "aB|", "|Z", "a^|", "||a^|", "(", ")", "[a]", "a+", "a{2}", "$", "a$", "^$"}
+	c03Shorts   = []string{"a", "ab", "abc", "^", "^^", "*^", "^*", "a^", "^a", "a*", "*a", "a|", "|a", "||a", "a||", "|||", "||^", "|^", "^|", "||*", "|*", "*|", "|a|", "||a|", "a|b", ".", "?", "a.b", "\\", "\\|", "|\\", "/*", "a/*", "//*", "||/*", "|/*", "*/*", "^/*", " ", "a ", "%", "-_", "Ab", "aB|", "|Z", "a^|", "||a^|", "(", ")", "[a]", "a+", "a{2}", "$", "a$", "^$",
+		"a.*", "a.**", "||a.*", "||cdn.example.*", "|https://ads.*", "/static/v1.**", "a.b.*|", "a\\*", "a.^", "a.*b", "a*.*"}
 	c03Literals = "abcxyzABCXYZ019._-%/:?&= "
 )
 
